@@ -146,3 +146,77 @@ _build14b = build
 def build(eng, tier):
     _build14b(eng, tier)
     add_shape_inference_failure_target(eng)
+
+
+def add_toposort_flag_target(eng):
+    """TopologicalSortPass.call: `reports modified=False only if the model serializes exactly as before` - for this pass the only
+    thing that can change is the order of nodes (Graph.sort permutes the node lists of the graph and its subgraphs; C12), so the
+    clause reads: modified=False implies that the node sequence after sorting, over the main graph, every nested subgraph and
+    every function, equals the sequence before, position by position.  The traversals are arbitrary node sequences (what they
+    enumerate is traversal.py's business), the sorts arbitrary effects; proved: the accumulation of both sequences over the
+    functions and the comparison loop."""
+    from pyvc.core import Exc
+    from pyvc.types import NULL, VNone, VOpaque, fresh_name
+    import z3
+    TS = "onnx_ir.passes.common.topological_sort"
+    eng.declare_class_from_source(TS, "TopologicalSortPass", fields={})
+    N = TRef("PNode")
+    eng.add_class(ClassDecl("PNode"))
+    eng.add_class(ClassDecl("PGraph", fields={}))
+    eng.add_class(ClassDecl("PFunction", fields={}))
+    eng.add_class(ClassDecl("PFunctions", fields={"g_vals": TSeq(TRef("PFunction"))}))
+    # (the Model class of this check - PassResult.model is typed with it - gets the two fields the pass reads)
+    eng.classes["Model"].fields["graph"] = TRef("PGraph")
+    eng.classes["Model"].fields["functions"] = TRef("PFunctions")
+    LN = eng.LIST(N)
+
+    from pyvc.types import Ref
+    tlen = z3.Function("traversal_len", Ref, z3.IntSort())       # sorting permutes: a traversal has the same length before and after
+
+    def traversal(e, p, args, kwargs, node):
+        v = e.symbolic_param(p, fresh_name("traversal"), TSeq(N))
+        p.assume(v.len >= 0)
+        p.assume(v.len == tlen(args[0].z))
+        return [(p, v)]
+
+    def sort(e, p, args, kwargs, node):
+        return [(p, VNone()), (p.copy(), Exc("ValueError", f"L{node.lineno}:sort"))]
+
+    def setup(e, p, env):
+        e.lenient = False
+        e.lib_models["c14.traversal"] = traversal
+        from pyvc.types import VFunc
+        e.method_models = dict(e.method_models)
+        e.method_models[("PGraph", "sort")] = FnDecl("Graph.sort", "builtin", impl=sort)
+        e.method_models[("PFunction", "sort")] = FnDecl("Function.sort", "builtin", impl=sort)
+        e.method_models[("PFunctions", "values")] = FnDecl("functions.values", "builtin", impl=lambda e2, p2, a, k, n: [(p2, e2.read_field(p2, a[0], "g_vals"))])
+        orig = e.module_attr
+
+        def module_attr(m, name, p2):
+            if name == "RecursiveGraphIterator":
+                return VFunc("lib", "c14.traversal", "RecursiveGraphIterator")
+            return orig(m, name, p2)
+        e.module_attr = module_attr
+    eng.add_target(Target("TopologicalSortPass.call", mod=TS, qual="TopologicalSortPass.call", self_cls="TopologicalSortPass",
+        params=dict(model=TRef("Model")), setup=setup,
+        requires=["nonnull(model)", "nonnull(model.graph)", "nonnull(model.functions)",
+                  "forall(lambda j=int: implies(0 <= j and j < len(model.functions.g_vals), nonnull(model.functions.g_vals[j])))"],
+        local_types={"original_nodes": LN, "sorted_nodes": LN},
+        ghost_init="g_o = EmptySeq(PNode)\ng_s = EmptySeq(PNode)",
+        ghost=[("modified = False", "before", "g_o = Seq(original_nodes)\ng_s = Seq(sorted_nodes)")],
+        loops={"for function in model.functions.values()": LoopSpec(invariant=["nonnull(original_nodes)", "nonnull(sorted_nodes)", "len(original_nodes) == len(sorted_nodes)"],
+                                                                     modifies=[f"{LN.cls}.$v", "$alloc"]),
+               "for (node, new_node) in zip(original_nodes, sorted_nodes)": LoopSpec(
+                   invariant=["modified == False", "forall(lambda j=int: implies(0 <= j and j < k, g_o[j] is g_s[j]))",
+                              "seq_eq(g_o, Seq(original_nodes)) and seq_eq(g_s, Seq(sorted_nodes))"], modifies=[])},
+        ensures=["result.model is model", "len(g_o) == len(g_s)",        # both sequences cover the same graphs and functions
+                 "implies(result.modified == False, forall(lambda j=int: implies(0 <= j and j < len(g_o), g_o[j] is g_s[j])))"],
+        raises={"ValueError": []}, raises_default=[], modifies=None, assert_mode="raise"))
+
+
+_build14c = build
+
+
+def build(eng, tier):
+    _build14c(eng, tier)
+    add_toposort_flag_target(eng)
